@@ -1,6 +1,9 @@
 //! Interleavings of done() with polls on a real acknowledgement, one shared-memory access at a time.
 //! Input: lines `case <name> final=<code> pollers=<id>:<waker>,... sched=<tid>,<tid>,...` (tid 0 = completer).
 //! A step of a thread that would block on the waker mutex (as tracked here) is skipped and reported.
+//! tid 99 = the completer's last step (taking the waker mutex) released although a poller holds the mutex: it has to wait
+//! there (reported as [99,2]) and goes on by itself when the poller lets go (reported as a step [0,1] at that moment);
+//! a completer that gets past the held mutex is reported as [99,3].
 use std::fs;
 use std::future::Future;
 use std::pin::Pin;
@@ -93,7 +96,18 @@ fn run_case(name: &str, final_code: u64, pollers: &[(usize, u64)], sched: &[usiz
 
     let mut holder: Option<usize> = None;
     let mut executed: Vec<J> = Vec::new();
+    let mut completer_waiting = false;
     for tid in sched {
+        if *tid == 99 {
+            if ctl.at_point(Role::Worker) == Some("ack.done.3") && holder.is_some() && !completer_waiting {
+                ctl.step_point(Role::Worker);
+                let deadline = Instant::now() + Duration::from_millis(40);
+                while !done_finished.load(Ordering::SeqCst) && Instant::now() < deadline { thread::sleep(Duration::from_micros(50)); }
+                if done_finished.load(Ordering::SeqCst) { executed.push(J::A(vec![J::I(99), J::I(3)])); }
+                else { completer_waiting = true; executed.push(J::A(vec![J::I(99), J::I(2)])); }
+            } else { executed.push(J::A(vec![J::I(99), J::I(0)])); }
+            continue;
+        }
         let (role, fin) = if *tid == 0 { (Role::Worker, done_finished.clone()) } else {
             match poll_finished.iter().find(|(id, _)| id == tid) { Some((_, f)) => (Role::Client(*tid), f.clone()), None => { executed.push(J::A(vec![J::I(*tid as i128), J::I(0)])); continue; } }
         };
@@ -114,6 +128,13 @@ fn run_case(name: &str, final_code: u64, pollers: &[(usize, u64)], sched: &[usiz
         if label == "ack.poll.lock" { holder = Some(*tid); }
         if label == "ack.poll.ready" || label == "ack.poll.pending" { holder = None; }
         executed.push(J::A(vec![J::I(*tid as i128), J::I(1)]));
+        if completer_waiting && holder.is_none() {
+            // the mutex is free again: the completer takes it, wakes and finishes without a further release
+            let deadline = Instant::now() + Duration::from_secs(10);
+            while !done_finished.load(Ordering::SeqCst) && Instant::now() < deadline { thread::sleep(Duration::from_micros(20)); }
+            completer_waiting = false;
+            executed.push(J::A(vec![J::I(0), J::I(if done_finished.load(Ordering::SeqCst) { 1 } else { -1 })]));
+        }
     }
     // observation
     let mut res = results.lock().unwrap().clone();
